@@ -18,7 +18,14 @@ import (
 type c06Case struct {
 	Source string `json:"source"`
 	Want   string `json:"want_tree"`
+	Before string `json:"parsed_before,omitempty"` // a rejected text parsed immediately before
 }
+
+// rejected texts parsed before every 16th text: the parse of a valid text does not depend on what the
+// parser object met before (unbalanced brackets, open strings, lexer errors, a fault at the end of input)
+var c06Rejected = []string{"x = [1, 2 3", "if a { b c", "x = 1)", "f(1, (2", "x = {\"k\": [", "s = \"open", "s = \"\"\"open\n", "`open", "x = -a[1/0]", "x = ]", "for ;; { }}", "x = 0x", "a b", "f(a=, )", "x = \"\\q\"", "# c\n)"}
+
+var c06Count int
 
 // parseTree parses text with the real parser and converts the result.
 func parseTree(src string) ([]*rt.Node, error) {
@@ -35,17 +42,26 @@ func parseTree(src string) ([]*rt.Node, error) {
 // c06Check parses src and compares with the generated tree.
 func c06Check(w *run.Worker, part string, prog []*rt.Node, src string) bool {
 	w.Eval()
+	before := ""
+	c06Count++
+	if c06Count%16 == 0 {
+		before = c06Rejected[(c06Count/16)%len(c06Rejected)]
+		if _, err := parser.ParsePipeline("r.p", before); err == nil {
+			w.Note("rejected_texts_accepted(decided by C05/C07)", 1)
+		}
+		part += ":after-a-rejected-text"
+	}
 	got, err := parseTree(src)
 	if err != nil {
 		w.Outcome("reject")
-		w.Violate("C06:"+part+":rejected:"+c06Shape(prog), fmt.Sprintf("valid text rejected: %v\n%s\nexpected tree: %s", err, src, rt.SexpProg(prog)),
-			c06Case{Source: src, Want: rt.SexpProg(prog)})
+		w.Violate("C06:"+part+":rejected:"+c06Shape(prog), fmt.Sprintf("valid text rejected: %v\n%s\nexpected tree: %s\nparsed immediately before: %q", err, src, rt.SexpProg(prog), before),
+			c06Case{Source: src, Want: rt.SexpProg(prog), Before: before})
 		return false
 	}
 	if !rt.EqualProg(got, prog) {
 		w.Outcome("differs")
-		w.Violate("C06:"+part+":wrong-tree:"+c06Shape(prog), fmt.Sprintf("text:\n%s\nparsed  : %s\nexpected: %s", src, rt.SexpProg(got), rt.SexpProg(prog)),
-			c06Case{Source: src, Want: rt.SexpProg(prog)})
+		w.Violate("C06:"+part+":wrong-tree:"+c06Shape(prog), fmt.Sprintf("text:\n%s\nparsed  : %s\nexpected: %s\nparsed immediately before: %q", src, rt.SexpProg(got), rt.SexpProg(prog), before),
+			c06Case{Source: src, Want: rt.SexpProg(prog), Before: before})
 		return false
 	}
 	w.OutcomeHash(hash2(rt.SexpProg(got), "", 0))
@@ -277,6 +293,9 @@ func c06Replay(raw json.RawMessage) (bool, string) {
 	if err := json.Unmarshal(raw, &c); err != nil {
 		return false, err.Error()
 	}
+	if c.Before != "" {
+		_, _ = parser.ParsePipeline("r.p", c.Before)
+	}
 	got, err := parseTree(c.Source)
 	if err != nil {
 		return true, "rejected: " + err.Error()
@@ -291,7 +310,7 @@ func init() {
 		Level: "model_checking",
 		Rule: "every expression tree with 1..3 (thorough 4) binary operators over all 14 operators in all shapes, every unary/binary placement, every pair of 47 primary-expression forms (calls with positional and named arguments, index chains, the 24 slice forms, attribute chains, list/map literals, sign-folded literals) under every operator, " +
 			"every statement form (6 assignment kinds, tuple assignment, if/elif/else, the 8 for shapes with expression and assignment clauses, for-in) over 12 expression representatives; each printed with the minimal parentheses of the documented table, " +
-			"then with every choice of <=2 redundant parenthesis pairs and every choice of <=2 layout insertions (space, tab, newline, blank line, comment) at the admissible sites; oracle: parsed tree == generated tree",
+			"then with every choice of <=2 redundant parenthesis pairs and every choice of <=2 layout insertions (space, tab, newline, blank line, comment) at the admissible sites; every 16th text is parsed directly after one of 16 rejected texts (unbalanced brackets, open strings, lexer errors, a fault in the last token); oracle: parsed tree == generated tree",
 		Assumptions: []string{"reference precedence: documented table + unary above * / % + `in` between && and comparisons (gram.y and the IDE grammar agree)"},
 		Run:            c06Run,
 		Replay:         c06Replay,
